@@ -1734,9 +1734,11 @@ def GET_EYE(
 
         ty = np.vstack([t[cond], input[cond]]).T
 
-        # We get centroids of 2 clusters for t,y
-        kmeans.fit(ty)
-        ty_c = kmeans.cluster_centers_
+        # We split the points in 2 clusters (left and right crossing) using only the time
+        # coordinate, so the result does not depend on the units (scale/offset) of the signal,
+        # and then we get the centroid (t,y) of each cluster
+        labels = kmeans.fit(ty[:, :1]).labels_
+        ty_c = np.array([ty[labels == k].mean(axis=0) for k in range(2)])
 
         left = np.argmin(ty_c[:,0])
         right = np.argmax(ty_c[:,0])
